@@ -6,6 +6,7 @@ import (
 	"math/rand"
 	"net"
 	"strings"
+	"sync/atomic"
 	"time"
 
 	"verifharness/lab"
@@ -110,6 +111,8 @@ func genConf(r *rand.Rand, portBase int) ConfSpec {
 	return cf
 }
 
+var c09Port atomic.Int64
+
 type pairProbe struct {
 	srv    *ServerProc
 	hub    *TargetHub
@@ -186,7 +189,10 @@ func (pp *pairProbe) probeTCP(c *vk.Ctx, r *rand.Rand, ep Endpoint, k KeySpec) (
 
 func (pp *pairProbe) probeUDP(c *vk.Ctx, r *rand.Rand, ep Endpoint, k KeySpec) bool {
 	// one client host (two addresses: IPv4 and IPv6), a fresh port per probe
-	cl, err := newUDPClient(net.IPv4(198, 51, 100, 9).To4(), 0, k)
+	// a port never used before by this host against this server: a re-used port would hit the
+	// association (and key) of an earlier probe
+	cport := 20000 + int(c09Port.Add(1)%40000)
+	cl, err := newUDPClient(net.IPv4(198, 51, 100, 9).To4(), cport, k)
 	if err != nil {
 		return true
 	}
@@ -195,7 +201,7 @@ func (pp *pairProbe) probeUDP(c *vk.Ctx, r *rand.Rand, ep Endpoint, k KeySpec) b
 	server, _ := net.ResolveUDPAddr("udp", DialAddr(ep.Addr))
 	if server.IP.To4() == nil {
 		cl.Close()
-		cl, err = newUDPClient(net.ParseIP("2001:db8:c9::9"), 0, k)
+		cl, err = newUDPClient(net.ParseIP("2001:db8:c9::9"), cport, k)
 		if err != nil {
 			return true
 		}
@@ -279,7 +285,7 @@ func c09Run(c *vk.Ctx) {
 			}
 		}
 		c.Progress("C09 config %d: %d services, %d legacy keys, aliased=%v", ci, len(cf.Services), len(cf.Legacy), aliased)
-		srv, err := StartServer(c.RunDir, cf, ServerOpts{})
+		srv, err := StartServer(c.RunDir, cf, ServerOpts{UDPTimeout: 2 * time.Second})
 		if err != nil && aliased {
 			c.Count("aliased_listener_configurations_refused", 1)
 			c.Eval("config|aliased-listener-address|refused")
